@@ -258,7 +258,9 @@ fn main_impl(
     force_serial: bool,
 ) {
     let args: Vec<String> = std::env::args().collect();
-    silence_panics();
+    if args.get(1).map(|s| s.as_str()) == Some("run") && std::env::var("NV_SHOW_PANICS").is_err() {
+        silence_panics();
+    }
     match args.get(1).map(|s| s.as_str()) {
         Some("gen") => {
             let seed: u64 = args[2].parse().expect("seed");
